@@ -31,6 +31,7 @@ class Case:
     def __init__(self, term, desc, kind="case", nontrivial=True, key=None):
         self.term, self.desc, self.kind, self.nontrivial = term, desc, kind, nontrivial
         self.key = key if key is not None else term
+        common.WATCHDOG.beat(desc)
 
 
 class Suite:
@@ -194,11 +195,34 @@ def run_property(pid, tier):
     distinct = set()
     hist = {}
     samples = []
+
+    def on_trip(entry):
+        # runs inside the signal handler: verdict, replay, evidence, exit (never returns)
+        path = write_replay(pid, {"property": pid, "verdict": "no-failing-input-found", "seed": seed, "tier": tier,
+                                  "no_longer_checks": broken[:20] + [entry]})
+        print("VIOLATION property=%s replay=%s no-failing-input-found" % (pid, path))
+        common.jdump({"property_id": pid, "tier": tier, "seed": seed, "level": "proof",
+                      "coverage": {"obligations": max(len(proof["printed"]), 1), "discharged_count": 0,
+                                   "checker_cmd": "aborted by the progress watchdog", "trusted_base": ["run aborted"],
+                                   "evaluations": 0, "distinct_nontrivial": 0, "rule": getattr(mod, "RULE", "see DESIGN.md"),
+                                   "samples": [{"note": "run aborted by the progress watchdog", "last_completed_case": entry.get("last_completed_case")}],
+                                   "broken_ties": [entry]},
+                      "wall_s": t.s(), "violations": 1}, os.path.join(EVIDENCE, pid + ".json"))
+        print("%s: tier=%s seed=%d ABORTED by the progress watchdog in phase '%s' wall=%ss" % (pid, tier, seed, entry.get("phase"), t.s()))
+        sys.stdout.flush()
+        os._exit(1)
+
+    try:
+        budget = int(os.environ.get("VERIF_PROGRESS_WATCHDOG_S", "0")) or (600 if tier == "quick" else 7200)
+    except ValueError:
+        budget = 600
+    common.WATCHDOG.start(budget, "suite generation (running the implementation)", on_trip)
     try:
         suites = mod.suites(tier)
     except Exception:
         suites = []
         broken.append({"kind": "harness", "detail": "suite generation crashed:\n" + traceback.format_exc()[-1500:]})
+    common.WATCHDOG.stop()
     for s in suites:
         evaluations += len(s.cases)
         for c in s.cases:
@@ -236,6 +260,7 @@ def run_property(pid, tier):
 
     # 3b. python-side checks (impl-vs-impl, schedulers, …) where a property module has them
     if hasattr(mod, "extra_checks"):
+        common.WATCHDOG.start(budget, "python-side checks (extra_checks)", on_trip)
         try:
             for name, res in mod.extra_checks(tier).items():
                 evaluations += res.get("evaluations", 0)
@@ -253,9 +278,12 @@ def run_property(pid, tier):
                     broken.append({"kind": "correspondence", "suite": name, "detail": b})
         except Exception:
             broken.append({"kind": "harness", "detail": "extra_checks crashed:\n" + traceback.format_exc()[-1500:]})
+        common.WATCHDOG.stop()
 
     # 4. known findings: replay each witness on the implementation
+    common.WATCHDOG.start(budget, "replaying the witnesses of the known findings", on_trip)
     for f in findings:
+        common.WATCHDOG.beat({"finding": f.get("id")})
         still = None
         if hasattr(mod, "replay_finding") and not f.get("witness_py"):
             try:
@@ -281,6 +309,8 @@ def run_property(pid, tier):
             if still:
                 failing.append({"suite": "fixed-finding-witness", "case": f.get("witness"),
                                 "how": "the witness of fixed finding %s fails again" % f["id"]})
+
+    common.WATCHDOG.stop()
 
     # 4b. thorough: independent re-check of the property .vo files with coqchk
     coqchk_report = None
